@@ -60,11 +60,12 @@ CHECKS["C04"] = {
     "engine": "HIST + STEP",
     "technique": "exhaustive history enumeration plus exhaustive preemption-bounded interleaving enumeration of contending writers on the real Collection, checked against a sequential model (Wing-Gong search)",
     "design_ref": "DESIGN.md 5/C04",
-    "text": "hist: every history to depth 3 (quick) / 5 (thorough, as far as the budget allows) over 19 operations contending for one unique scalar value, one unique array element and one multi-field tuple (accepted writes, rejections by uniqueness / schema / unknown field / missing document, removals that release a value, flush, reopen): every rejected call must leave the complete observable state (documents + every index, C02 comparison) equal to the model's unchanged state, and the value must become insertable exactly when the model says so. step: every pair (preemption bound 2) and triple (bound 1; thorough 3/2 and quadruples at 1) of concurrent writers from a 10-operation contention alphabet, all interleavings of their backend-call steps; exactly the results and final state of some sequential order are accepted, so two winners, a leaked posting or a lost release are violations. Crash states are covered by the uniqueness clause of the C01 oracle.",
+    "text": "hist: every history to depth 3 (quick) / 5 (thorough, as far as the budget allows) over 19 operations contending for one unique scalar value, one unique array element and one multi-field tuple (accepted writes, rejections by uniqueness / schema / unknown field / missing document, removals that release a value, flush, reopen): every rejected call must leave the complete observable state (documents + every index, C02 comparison) equal to the model's unchanged state, and the value must become insertable exactly when the model says so. step: every pair (preemption bound 2) and triple (bound 1; thorough 3/2 and quadruples at 1) of concurrent writers from a 10-operation contention alphabet, all interleavings of their backend-call steps; exactly the results and final state of some sequential order are accepted, so two winners, a leaked posting or a lost release are violations. crash: every crash prefix (and nested recovery prefix, and ambiguous failure) of every workload to depth 3 over a 10-operation contention alphabet: the recovered documents never share a unique name, a unique array element or the multi-field tuple, and the recovered indexes agree with them.",
     "note": "Await-granularity schedules (single-threaded executor); lock-granularity interleavings inside the unique B-tree index itself are the thread part. Values drawn from a 2-3 value contested alphabet.",
     "parts": [
         {"part": "hist", "crate": "vdb", "bin": "c02_hist", "args": ["--property", "C04"], "budget_quick": 25, "budget_thorough": 1200},
         {"part": "step", "crate": "vdb", "bin": "c05_step", "args": ["--property", "C04"], "budget_quick": 15, "budget_thorough": 900},
+        {"part": "crash", "crate": "vdb", "bin": "c01_crash", "args": ["--property", "C04"], "budget_quick": 15, "budget_thorough": 900},
     ],
 }
 
